@@ -76,6 +76,13 @@ def check_batch(run, b, nrand, valgrind=False):
                 meta.append((op + "-unknown", "the (id, bus) of a binding of another protocol", i_, bus_, None, None, 0))
     used = {(i, bus) for _, i, bus in bindings}
     all_buses = sorted({bus for _, _, bus in bindings})
+    # workload guards (a widening elsewhere must not silently push these shapes out of the batches)
+    if len({i for i, _ in used}) < len(used):
+        run.count("batches_with_one_id_on_two_buses")
+    if any(bus in ("unkn", "None", "null") for _, bus in used):
+        run.count("batches_with_a_sentinel_like_bus_name")
+    if any(i == 0 for i, _ in used) and any(i == 2047 for i, _ in used):
+        run.count("batches_with_ids_0_and_2047")
     r = run.rng("probes", b.bi)
     for nid in nobus_ids:
         for pbus in all_buses[:2] + ["zz"]:
@@ -233,7 +240,7 @@ def run(run):
 
 
 def conclude(run):
-    run.require("generations", "compiles", "frames_encoded_ok", "frames_decoded_ok", "unknown_frames_rejected")
+    run.require("batches_with_one_id_on_two_buses", "batches_with_a_sentinel_like_bus_name", "batches_with_ids_0_and_2047", "generations", "compiles", "frames_encoded_ok", "frames_decoded_ok", "unknown_frames_rejected")
 
 
 def replay(run, case):
